@@ -296,7 +296,7 @@ SizeClasses(w) ==
     [] w = "floydwarshall" -> <<<<16, 0>>, <<24, 0>>, <<32, 5>>>>
     [] w = "im2col" -> <<<<1, 1, 8, 8, 3, 3, 0, 0, 1, 1, 1, 1>>, <<2, 2, 9, 9, 3, 3, 1, 1, 2, 2, 1, 1>>, <<1, 2, 12, 12, 3, 3, 1, 1, 1, 1, 2, 2>>>>
     [] w = "kmeans" -> <<<<128, 3, 4, 3>>, <<100, 2, 3, 2>>, <<256, 5, 8, 2>>>>
-    [] w = "matrixmultiplication" -> <<<<32, 32, 32>>, <<32, 128, 32>>, <<64, 128, 32>>, <<32, 128, 64>>>>
+    [] w = "matrixmultiplication" -> <<<<32, 32, 32>>, <<32, 32, 64>>, <<32, 128, 32>>, <<64, 128, 32>>, <<32, 128, 64>>>>
     [] w = "matrixtranspose" -> <<<<64>>, <<128>>, <<256>>>>
     [] w = "memcopy" -> <<<<100>>, <<4096>>, <<65636>>>>
     [] w = "nbody" -> <<<<256, 1>>, <<512, 1>>, <<300, 2>>>>
